@@ -304,8 +304,8 @@ Definition rawtext_body (c : cfg) (raw : Z) (s : lx * bool) : res (lp (lx * bool
 (* returns the view, the cursor and l.hasTmpl *)
 Definition shift_rawtext (c : cfg) (raw : Z) (z : lx) (has : bool) : res (sl * lx * bool) :=
   if raw =? html_hash_Plaintext then
-    z' <-- loop (fuel_of z) plaintext_body z ;;
-    r <-- shiftv z' ;; Ok (fst r, snd r, has)
+    rh <-- loop (fuel_of z) (with_tmpl_lx c plaintext_body) (z, has) ;;
+    r <-- shiftv (fst rh) ;; Ok (fst r, snd r, snd rh)
   else
     s <-- loop (fuel_of z) (rawtext_body c raw) (z, has) ;;
     r <-- shiftv (fst s) ;; Ok (fst r, snd r, snd s).
